@@ -20,6 +20,7 @@ import (
 	"os"
 	"os/exec"
 	"path/filepath"
+	"regexp"
 	"sort"
 	"strings"
 	"sync"
@@ -74,6 +75,9 @@ type c08Scenario struct {
 	// storage so slow that a heartbeat leaves the lock file empty for Gap between truncate and write
 	Gap time.Duration `json:"gap_ns,omitempty"`
 	Tol time.Duration `json:"tol_ns,omitempty"` // time tolerance of the comparison, default c08Tol
+	// Trace: the child processes run under strace; their system calls on the lock file are compared
+	// with the model's steps (case kind 2)
+	Trace bool `json:"trace,omitempty"`
 	// NamesClass != "": additionally emit the scenario as a names case of this class (no pre-made file)
 	NamesClass string `json:"names_class,omitempty"`
 }
@@ -146,6 +150,8 @@ type c08Result struct {
 	Obs      map[int]*c08ThreadObs
 	KillAt   map[int]int64 // pid -> measured
 	SigAt    []int64       // measured instants of Sc.Signals (0 = not delivered)
+	Traces   map[int][]int // pid -> system calls on the lock file (codes of c08ParseTrace)
+	TraceTxt map[int][]string
 	PreAbs   [2]int64      // created, updated relative to base (ns), for meta files
 	Skipped  string
 	Early    bool
@@ -223,6 +229,8 @@ func c08Run(tmproot string, sc c08Scenario) (*c08Result, error) {
 	endCtx, endAll := context.WithCancel(context.Background())
 	var wg sync.WaitGroup
 	var cmds = map[int]*exec.Cmd{}
+	var traced []int
+	exited := make(chan int, len(sc.Threads))
 	for _, th := range sc.Threads {
 		th := th
 		o := res.Obs[th.Tid]
@@ -286,6 +294,11 @@ func c08Run(tmproot string, sc c08Scenario) (*c08Result, error) {
 		if sc.Gap > 0 {
 			cmd = exec.Command("strace", "-f", "-o", "/dev/null", "-e", "trace=ftruncate", "-e",
 				fmt.Sprintf("inject=ftruncate:delay_exit=%d", sc.Gap.Microseconds()), os.Args[0], "C08", "child", "0", dir, string(b))
+		} else if sc.Trace {
+			cmd = exec.Command("strace", "-f", "-o", filepath.Join(dir, fmt.Sprintf("trace.%d", th.Pid)), "-e",
+				"trace=openat,open,creat,read,write,ftruncate,truncate,fsync,fdatasync,close,unlink,unlinkat,rename,renameat,renameat2",
+				os.Args[0], "C08", "child", "0", dir, string(b))
+			traced = append(traced, th.Pid)
 		}
 		pr, err := cmd.StdoutPipe()
 		if err != nil {
@@ -320,6 +333,7 @@ func c08Run(tmproot string, sc c08Scenario) (*c08Result, error) {
 				mu.Unlock()
 			}
 			cmd.Wait()
+			exited <- th.Pid
 		}()
 	}
 	for _, k := range sc.Kills {
@@ -403,10 +417,32 @@ func c08Run(tmproot string, sc c08Scenario) (*c08Result, error) {
 		res.Early = true
 	}
 	endAll()
+	if len(traced) > 0 {
+		// let the traced children finish by themselves so that their traces are complete
+		grace := time.After(2500 * time.Millisecond)
+	waitTraced:
+		for n := 0; n < len(cmds); n++ {
+			select {
+			case <-exited:
+			case <-grace:
+				break waitTraced
+			}
+		}
+	}
 	for _, c := range cmds {
 		c.Process.Kill()
 	}
 	wg.Wait()
+	for _, pid := range traced {
+		codes, txt, err := c08ParseTrace(filepath.Join(dir, fmt.Sprintf("trace.%d", pid)), dir)
+		if err != nil {
+			return nil, err
+		}
+		if res.Traces == nil {
+			res.Traces, res.TraceTxt = map[int][]int{}, map[int][]string{}
+		}
+		res.Traces[pid], res.TraceTxt[pid] = codes, txt
+	}
 	res.Duration = time.Since(t00)
 	// a thread that started much later than planned makes the planned margins meaningless
 	for _, th := range sc.Threads {
@@ -421,6 +457,133 @@ func c08Run(tmproot string, sc c08Scenario) (*c08Result, error) {
 		}
 	}
 	return res, nil
+}
+
+// c08ParseTrace projects an strace output to the system calls that touch a lock file below root:
+// 1 open O_CREAT|O_EXCL ok, 2 the same failing with EEXIST, 3 write, 4 fsync, 5 close, 6 open O_RDWR ok,
+// 7 read(s) (consecutive reads count once), 8 ftruncate, 9 unlink ok, 10 open read-only ok,
+// 11 open read-only failing ENOENT, 12 open O_RDWR failing ENOENT, 13 any other way of opening it for
+// writing or creating it (O_TRUNC, O_CREAT without O_EXCL, O_APPEND), 14 rename from / onto it,
+// 15 unlink failing ENOENT, 16 truncate by name.
+func c08ParseTrace(file, root string) ([]int, []string, error) {
+	raw, err := os.ReadFile(file)
+	if err != nil {
+		return nil, nil, err
+	}
+	reUnf := regexp.MustCompile(`^(\d+)\s+(\w+)\((.*) <unfinished \.\.\.>$`)
+	reRes := regexp.MustCompile(`^(\d+)\s+<\.\.\. (\w+) resumed>(.*)$`)
+	reCall := regexp.MustCompile(`^\d+\s+(\w+)\((.*)\)\s+= (-?\d+)(.*)$`)
+	pending := map[string]string{}
+	var lines []string
+	for _, ln := range strings.Split(string(raw), "\n") {
+		if m := reUnf.FindStringSubmatch(ln); m != nil {
+			pending[m[1]] = m[1] + " " + m[2] + "(" + m[3]
+			continue
+		}
+		if m := reRes.FindStringSubmatch(ln); m != nil {
+			if p, ok := pending[m[1]]; ok {
+				delete(pending, m[1])
+				lines = append(lines, p+m[3])
+			}
+			continue
+		}
+		lines = append(lines, ln)
+	}
+	lockDir := filepath.Join(root, "locks") + "/"
+	isLock := func(args string) bool { return strings.Contains(args, `"`+lockDir) && strings.Contains(args, `.lock"`) }
+	fds := map[string]bool{}
+	var codes []int
+	var kept []string
+	add := func(c int, ln string) {
+		if c == 7 && len(codes) > 0 && codes[len(codes)-1] == 7 {
+			return
+		}
+		codes = append(codes, c)
+		kept = append(kept, strings.Replace(ln, root, "<root>", -1))
+	}
+	for _, ln := range lines {
+		m := reCall.FindStringSubmatch(ln)
+		if m == nil {
+			continue
+		}
+		name, args, ret, tail := m[1], m[2], m[3], m[4]
+		fd := strings.TrimSpace(strings.SplitN(args, ",", 2)[0])
+		switch name {
+		case "openat", "open", "creat":
+			if !isLock(args) {
+				continue
+			}
+			creat, excl := strings.Contains(args, "O_CREAT") || name == "creat", strings.Contains(args, "O_EXCL")
+			trunc, app := strings.Contains(args, "O_TRUNC") || name == "creat", strings.Contains(args, "O_APPEND")
+			rdwr, wr := strings.Contains(args, "O_RDWR"), strings.Contains(args, "O_WRONLY")
+			ok := ret != "-1"
+			switch {
+			case creat && excl && !trunc && !app:
+				if ok {
+					add(1, ln)
+				} else if strings.Contains(tail, "EEXIST") {
+					add(2, ln)
+				} else {
+					add(13, ln)
+				}
+			case creat || trunc || app || wr:
+				add(13, ln)
+			case rdwr:
+				if ok {
+					add(6, ln)
+				} else {
+					add(12, ln)
+				}
+			default:
+				if ok {
+					add(10, ln)
+				} else {
+					add(11, ln)
+				}
+			}
+			if ok {
+				fds[ret] = true
+			}
+		case "write":
+			if fds[fd] {
+				add(3, ln)
+			}
+		case "read":
+			if fds[fd] {
+				add(7, ln)
+			}
+		case "fsync", "fdatasync":
+			if fds[fd] {
+				add(4, ln)
+			}
+		case "ftruncate":
+			if fds[fd] {
+				add(8, ln)
+			}
+		case "close":
+			if fds[fd] {
+				delete(fds, fd)
+				add(5, ln)
+			}
+		case "unlink", "unlinkat":
+			if isLock(args) {
+				if ret == "0" {
+					add(9, ln)
+				} else {
+					add(15, ln)
+				}
+			}
+		case "rename", "renameat", "renameat2":
+			if isLock(args) {
+				add(14, ln)
+			}
+		case "truncate":
+			if isLock(args) {
+				add(16, ln)
+			}
+		}
+	}
+	return codes, kept, nil
 }
 
 const (
@@ -545,6 +708,25 @@ func c08Emit(w *emit.Writer, res *c08Result) {
 		w.Add(emit.Case{Desc: map[string]any{"kind": "scenario", "class": class, "scenario": sc.Name, "wall_s": res.Duration.Seconds()},
 			In: sc, Obs: map[string]any{"threads": obs, "kills_ns": res.KillAt, "events": evs, "horizon_ns": hz},
 			Wire: e.String(), Nontrivial: nt, Key: sc.Name + fmt.Sprint(gi)})
+		// case kind 2: the system calls of each traced process on this lock file against the model's steps
+		var tpids []int
+		for pid := range res.Traces {
+			if pids[pid] {
+				tpids = append(tpids, pid)
+			}
+		}
+		sort.Ints(tpids)
+		for _, pid := range tpids {
+			t := &emit.Enc{}
+			t.Int(pid).Len(len(res.Traces[pid]))
+			for _, c := range res.Traces[pid] {
+				t.Int(c)
+			}
+			w.Hist("class=syscall-trace")
+			w.Add(emit.Case{Desc: map[string]any{"kind": "syscalls", "class": "syscall-trace", "scenario": sc.Name, "pid": pid},
+				In: sc, Obs: map[string]any{"pid": pid, "codes": res.Traces[pid], "strace": res.TraceTxt[pid], "events": evs},
+				Wire: "2 " + strings.TrimPrefix(e.String(), "0 ") + " " + t.String(), Nontrivial: true, Key: fmt.Sprint(sc.Name, "/trace/", pid)})
+		}
 	}
 	// case kind 1: "distinct names never block each other" over the whole scenario
 	if sc.NamesClass != "" {
@@ -713,6 +895,17 @@ func c08Scenarios(tier string, r *rand.Rand) []c08Scenario {
 		{Name: "suspended-holder", Class: "suspended-holder",
 			Threads: []c08Thread{{Tid: 0, Pid: 1, Name: n, StartAt: c08ms(200), HoldFor: c08ms(14000)}, {Tid: 1, Name: n, StartAt: c08ms(700), HoldFor: c08ms(500), CancelAt: long}},
 			Signals: []c08Signal{{Pid: 1, At: c08ms(1000)}, {Pid: 1, At: c08ms(12000), Cont: true}}, Horizon: c08ms(16000)},
+		// system-call level: a process takes the lock, holds it over one heartbeat, releases it; a second
+		// process polls meanwhile and takes it afterwards; a third gives up on a fresh pre-made file
+		{Name: "trace-holder-and-waiter", Class: "traced", Trace: true,
+			Threads: []c08Thread{{Tid: 0, Pid: 1, Name: n, StartAt: c08ms(200), HoldFor: c08ms(5600)}, {Tid: 1, Pid: 2, Name: n, StartAt: c08ms(3700), HoldFor: c08ms(300), CancelAt: long}},
+			Horizon: c08ms(9000)},
+		{Name: "trace-waiter-gives-up", Class: "traced", Trace: true, Pre: c08PreFile{Kind: "meta", CreatedAge: c08ms(1000), UpdatedAge: c08ms(100)},
+			Threads: []c08Thread{{Tid: 0, Pid: 1, Name: n, StartAt: c08ms(200), HoldFor: c08ms(100), CancelAt: c08ms(1750)}},
+			Horizon: c08ms(3000)},
+		{Name: "trace-stale-takeover", Class: "traced", Trace: true, Pre: c08PreFile{Kind: "meta", CreatedAge: c08ms(90000), UpdatedAge: c08ms(30000)},
+			Threads: []c08Thread{{Tid: 0, Pid: 1, Name: n, StartAt: c08ms(200), HoldFor: c08ms(300), CancelAt: long}},
+			Horizon: c08ms(3000)},
 		{Name: "three-processes", Class: "multi-process",
 			Threads: []c08Thread{{Tid: 0, Pid: 1, Name: n, StartAt: c08ms(150), HoldFor: c08ms(600)}, {Tid: 1, Pid: 2, Name: n, StartAt: c08ms(350), HoldFor: c08ms(600), CancelAt: long},
 				{Tid: 2, Pid: 3, Name: n, StartAt: c08ms(550), HoldFor: c08ms(600), CancelAt: long}},
